@@ -93,7 +93,7 @@ fn one<T: RelationToQueryTranslator + QueryToRelationTranslator + Copy>(cx: &mut
     } else if a != b {
         let pairs: Vec<(&(String, String), &(String, String))> = a.iter().zip(b.iter()).filter(|(x, y)| x != y).collect();
         let boolish = |t: &str| t.starts_with("bool") || t.starts_with("option(bool") || t == "null" || t == "∅" || t == "option(∅)";
-        let change = if pairs.iter().all(|(x, y)| boolish(&x.1) && (!boolish(&y.1) || x.1 != y.1 && (y.1 == "null" || x.1 == "∅"))) { "boolean-to-number" } else { "other" };
+        let change = if pairs.iter().all(|(x, y)| boolish(&x.1) && (!boolish(&y.1) || x.1 != y.1 && (y.1 == "null" || x.1 == "∅"))) { "boolean-to-number" } else if text.contains("LOG10(") { "log10" } else { "other" };
         cx.st.violation(json!({"kind":"read-back-column-types-differ","dialect":name,"class":cx.class,"construct":change,"query":cx.sql,"differ":pairs.iter().take(3).collect::<Vec<_>>()}));
     }
 }
@@ -115,17 +115,66 @@ pub fn generate(dir: &str) {
     std::fs::write(format!("{}/Dialects.v", dir), text).unwrap();
 }
 
+/// queries of the supported fragment aimed at what differs between dialects (also run by C08, C07 and C16 under their oracles)
+pub fn frag_templates() -> Vec<&'static str> {
+    vec!["SELECT VARIANCE(t.amount) AS v, AVG(t.amount) AS m FROM orders AS t", "SELECT t.status AS k, STDDEV(t.amount) AS s FROM orders AS t GROUP BY t.status",
+                // expression shapes whose text could collide with lexical conventions of a dialect (comments, operators, quotes)
+                "SELECT -(-t.age) AS x, - t.income AS y, t.age - (-5) AS z FROM users AS t", "SELECT NOT (NOT (t.age > 30)) AS x, -(-(-t.age)) AS y FROM users AS t WHERE -(-t.age) > 20",
+                "SELECT '--' AS a, '/* x */' AS b, t.city AS c FROM users AS t", "SELECT t.age * -1 AS x, t.age / 2 AS y, t.age % 7 AS z FROM users AS t",
+                "SELECT CASE WHEN t.age > 30 THEN -(-t.income) ELSE - t.income END AS x FROM users AS t",
+                // a sub-relation shared by both operands of a set operation or a join, under different projections
+                "WITH c AS (SELECT t.age AS a, t.id AS b FROM users AS t WHERE t.age > 20) SELECT c.a AS v FROM c UNION ALL SELECT c.b AS v FROM c",
+                "WITH c AS (SELECT t.age AS a, t.id AS b FROM users AS t WHERE t.age > 20) SELECT c.a AS v FROM c WHERE c.a > 30 EXCEPT SELECT c.b AS v FROM c WHERE c.b < 40",
+                "WITH c AS (SELECT t.age AS a, t.id AS b FROM users AS t) SELECT c.a + 1 AS v FROM c INTERSECT SELECT c.b + 2 AS v FROM c",
+                "WITH c AS (SELECT t.age AS a, t.id AS b FROM users AS t) SELECT x.a AS a, y.b AS b FROM c AS x JOIN c AS y ON x.b = y.a",
+                "WITH c AS (SELECT t.age AS a, t.id AS b FROM users AS t), d AS (SELECT c.a AS v FROM c UNION SELECT c.b AS v FROM c) SELECT d.v AS v FROM d UNION ALL SELECT c.a + c.b AS v FROM c",
+                // float constants that need all 17 significant digits, very large and very small
+                "SELECT 30000000000000004.0 AS a, 1.2345678901234567e-11 AS b, t.income * 12345678901.234567 AS c FROM users AS t WHERE t.income < 98765432109.87654",
+                "SELECT t.amount + 0.30000000000000004 AS a, t.amount * 1.0000000000000002e15 AS b, t.amount / 7.000000000000001e-12 AS c FROM orders AS t",
+                // CASE with several WHEN branches whose conditions overlap (the first true branch wins), nested in ELSE and in THEN
+                "SELECT CASE WHEN t.age > 60 THEN 'high' WHEN t.age > 30 THEN 'mid' WHEN t.age > 0 THEN 'low' ELSE 'none' END AS k, t.id AS i FROM users AS t",
+                "SELECT CASE WHEN t.amount > 400 THEN 3 WHEN t.amount > 100 THEN 2 WHEN t.amount >= 0 THEN 1 ELSE 0 END AS k, t.id AS i FROM orders AS t",
+                "SELECT CASE WHEN t.age > 20 THEN CASE WHEN t.age > 50 THEN 1 WHEN t.age > 40 THEN 2 ELSE 3 END WHEN t.age > 10 THEN 4 ELSE 5 END AS k, t.id AS i FROM users AS t"]
+}
+
+/// scalar functions with their optional arguments (trim characters, substring bounds, rounding digits), casts and predicates
+pub fn fn_templates() -> Vec<(&'static str, &'static str)> {
+    vec![
+        ("fn-trim", "SELECT LTRIM(t.city, 'P') AS a, RTRIM(t.city, 's') AS b FROM users AS t"),
+        ("fn-trim", "SELECT TRIM(LEADING 'P' FROM t.city) AS a, TRIM(TRAILING 'e' FROM t.city) AS b FROM users AS t"),
+        ("fn-trim", "SELECT TRIM(BOTH 'L' FROM t.city) AS c FROM users AS t"),
+        ("fn-substr", "SELECT SUBSTR(t.city, 2) AS a, SUBSTR(t.city, 1, 2) AS b FROM users AS t"),
+        ("fn-scalar", "SELECT ROUND(t.income, 1) AS a, ROUND(t.income) AS b FROM users AS t"),
+        ("fn-scalar", "SELECT POSITION('a' IN t.city) AS a FROM users AS t"),
+        ("fn-scalar", "SELECT CONCAT(t.city, '-', t.city) AS a FROM users AS t"),
+        ("fn-scalar", "SELECT POW(t.age, 2) AS a, SQRT(t.age) AS b, EXP(t.age / 100) AS c, LN(t.age) AS d FROM users AS t"),
+        ("fn-scalar", "SELECT LOWER(t.city) AS a, UPPER(t.city) AS b, CHAR_LENGTH(t.city) AS c FROM users AS t"),
+        ("fn-scalar", "SELECT GREATEST(t.age, 30) AS a, LEAST(t.age, 30) AS b FROM users AS t"),
+        ("fn-scalar", "SELECT CAST(t.age AS TEXT) AS a, CAST(t.income AS INTEGER) AS b, CAST(t.id AS FLOAT) AS c FROM users AS t"),
+        ("fn-scalar", "SELECT COALESCE(t.score, 0) AS a, t.age % 7 AS b, ABS(t.age - 50) AS c, SIGN(t.age - 50) AS d FROM users AS t"),
+        ("fn-scalar", "SELECT CEIL(t.income / 7) AS a, FLOOR(t.income / 7) AS b, TRUNC(t.income / 7) AS c FROM users AS t"),
+        ("fn-scalar", "SELECT t.city LIKE 'P%' AS a, t.city IN ('Paris', 'Lyon') AS b, t.age BETWEEN 20 AND 40 AS c FROM users AS t"),
+        ("fn-scalar", "SELECT REGEXP_CONTAINS(t.city, 'P') AS a FROM users AS t"),
+        ("fn-scalar", "SELECT MD5(t.city) AS a FROM users AS t"),
+        ("fn-substr", "SELECT SUBSTRING(t.city FROM 1 FOR 2) AS a FROM users AS t"),
+        ("fn-log2-log10", "SELECT LOG(t.age) AS a, LOG10(t.age) AS b, LOG2(t.age) AS c FROM users AS t"),
+        ("fn-scalar", "SELECT t.age / 7 AS a, t.income * 2 AS b, t.age + t.id AS c FROM users AS t"),
+        ("fn-scalar", "SELECT CASE WHEN t.score IS NULL THEN 0 ELSE 1 END AS a, t.score IS NOT NULL AS b FROM users AS t"),
+        ("fn-scalar", "SELECT LOG(t.age) AS a, LN(t.age) AS b, LOG(2, t.age) AS c FROM users AS t")]
+}
+
 pub fn run(outdir: &str, seed: u64, thorough: bool) -> serde_json::Value {
     let _ = outdir;
     let w = world();
     let weird = weird_relations();
     let mut rng = Rng::new(seed ^ 0xC17);
     let mut st = Stats::default();
-    let n = if thorough { 2500 } else { 150 };
+    let n = if thorough { 2500 } else { 220 };
     // aggregation queries whose DP rewriting is translated: the last has an empty public key set
     let dp_targeted = ["SELECT t.city AS k0, COUNT(t.income) AS a0 FROM users AS t GROUP BY t.city", "SELECT VARIANCE(t.amount) AS a0, STDDEV(t.amount) AS a1, AVG(t.amount) AS a2 FROM orders AS t",
         "SELECT t.qty AS k0, COUNT(t.price) AS a1 FROM items AS t WHERE t.qty > 20 GROUP BY t.qty"];
-    let mut made = 0; let mut attempts = 0;
+    let corpus: Vec<String> = crate::c08::templates().into_iter().filter(|(n, _)| !crate::c08::MISTRANSLATED.contains(n) && !n.starts_with("group-by-keys-only-with-where") && *n != "dialect-template").map(|(_, q)| q.replace("{k}", "3")).collect();
+    let mut made = 0; let mut attempts = 0; let mut kfrag = 0usize;
     while made < n && attempts < n * 20 {
         attempts += 1;
         let mut r = rng.fork();
@@ -144,26 +193,11 @@ pub fn run(outdir: &str, seed: u64, thorough: bool) -> serde_json::Value {
             (sql, rw.relation().clone(), &w.relations, if empty_values { "dp-empty-public-key-set" } else { "dp" })
         } else {
             let depth = r.range(0, 2) as u32;
-            let k = attempts - WEIRD.len() - dp_targeted.len();
-            let frag_targeted = ["SELECT VARIANCE(t.amount) AS v, AVG(t.amount) AS m FROM orders AS t", "SELECT t.status AS k, STDDEV(t.amount) AS s FROM orders AS t GROUP BY t.status",
-                // expression shapes whose text could collide with lexical conventions of a dialect (comments, operators, quotes)
-                "SELECT -(-t.age) AS x, - t.income AS y, t.age - (-5) AS z FROM users AS t", "SELECT NOT (NOT (t.age > 30)) AS x, -(-(-t.age)) AS y FROM users AS t WHERE -(-t.age) > 20",
-                "SELECT '--' AS a, '/* x */' AS b, t.city AS c FROM users AS t", "SELECT t.age * -1 AS x, t.age / 2 AS y, t.age % 7 AS z FROM users AS t",
-                "SELECT CASE WHEN t.age > 30 THEN -(-t.income) ELSE - t.income END AS x FROM users AS t",
-                // a sub-relation shared by both operands of a set operation or a join, under different projections
-                "WITH c AS (SELECT t.age AS a, t.id AS b FROM users AS t WHERE t.age > 20) SELECT c.a AS v FROM c UNION ALL SELECT c.b AS v FROM c",
-                "WITH c AS (SELECT t.age AS a, t.id AS b FROM users AS t WHERE t.age > 20) SELECT c.a AS v FROM c WHERE c.a > 30 EXCEPT SELECT c.b AS v FROM c WHERE c.b < 40",
-                "WITH c AS (SELECT t.age AS a, t.id AS b FROM users AS t) SELECT c.a + 1 AS v FROM c INTERSECT SELECT c.b + 2 AS v FROM c",
-                "WITH c AS (SELECT t.age AS a, t.id AS b FROM users AS t) SELECT x.a AS a, y.b AS b FROM c AS x JOIN c AS y ON x.b = y.a",
-                "WITH c AS (SELECT t.age AS a, t.id AS b FROM users AS t), d AS (SELECT c.a AS v FROM c UNION SELECT c.b AS v FROM c) SELECT d.v AS v FROM d UNION ALL SELECT c.a + c.b AS v FROM c",
-                // float constants that need all 17 significant digits, very large and very small
-                "SELECT 30000000000000004.0 AS a, 1.2345678901234567e-11 AS b, t.income * 12345678901.234567 AS c FROM users AS t WHERE t.income < 98765432109.87654",
-                "SELECT t.amount + 0.30000000000000004 AS a, t.amount * 1.0000000000000002e15 AS b, t.amount / 7.000000000000001e-12 AS c FROM orders AS t",
-                // CASE with several WHEN branches whose conditions overlap (the first true branch wins), nested in ELSE and in THEN
-                "SELECT CASE WHEN t.age > 60 THEN 'high' WHEN t.age > 30 THEN 'mid' WHEN t.age > 0 THEN 'low' ELSE 'none' END AS k, t.id AS i FROM users AS t",
-                "SELECT CASE WHEN t.amount > 400 THEN 3 WHEN t.amount > 100 THEN 2 WHEN t.amount >= 0 THEN 1 ELSE 0 END AS k, t.id AS i FROM orders AS t",
-                "SELECT CASE WHEN t.age > 20 THEN CASE WHEN t.age > 50 THEN 1 WHEN t.age > 40 THEN 2 ELSE 3 END WHEN t.age > 10 THEN 4 ELSE 5 END AS k, t.id AS i FROM users AS t"];
-            let sql = if k >= 1 && k <= frag_targeted.len() { frag_targeted[k - 1].to_string() } else {
+            kfrag += 1; let k = kfrag;
+            let frag_targeted = frag_templates();
+            let sql = if k >= 1 && k <= frag_targeted.len() { frag_targeted[k - 1].to_string() }
+                // the constructs the tree generator does not produce (the templates of C08)
+                else if k - frag_targeted.len() <= corpus.len() { st.bump("construct_template_queries"); corpus[k - frag_targeted.len() - 1].clone() } else {
                 let (q0, cols) = { let mut g = QGen::new(&mut r, &w.specs); g.bool_items = true; g.query(depth) };
                 let is_set = q0.contains(" UNION ") || q0.contains(" INTERSECT ") || q0.contains(" EXCEPT ");
                 if is_set { q0 } else { let (q, o) = crate::c08::decorate(&mut r, &q0, &cols); ordered = o; q } };
@@ -198,7 +232,7 @@ pub fn run(outdir: &str, seed: u64, thorough: bool) -> serde_json::Value {
                             let same_order = !ordered || a.iter().zip(b.iter()).all(|(x, y)| x.iter().map(|v| v.canon()).collect::<Vec<_>>() == y.iter().map(|v| v.canon()).collect::<Vec<_>>());
                             if an != bn || bag(&a) != bag(&b) || !same_order { st.violation(json!({"kind":"sqlite-translation-returns-other-rows","dialect":"sqlite","class":class,"query":sql,"translated":text.chars().take(600).collect::<String>(),
                                 "original_count":a.len(),"translated_count":b.len(),"original_columns":an,"translated_columns":bn})); } }
-                        (Ok(_), Err(e)) => { st.violation(json!({"kind":"sqlite-translation-not-executable","dialect":"sqlite","class":class,"construct":e.chars().take(40).collect::<String>(),"query":sql,"error":e.chars().take(200).collect::<String>(),"translated":text.chars().take(400).collect::<String>()})); }
+                        (Ok(_), Err(e)) => { st.violation(json!({"kind":"sqlite-translation-not-executable","dialect":"sqlite","class":class,"construct": if text.contains("SUBSTRING(") && e.contains("near \"FROM\"") { "substring-from-for-syntax".to_string() } else { e.chars().take(40).collect::<String>() },"query":sql,"error":e.chars().take(200).collect::<String>(),"translated":text.chars().take(400).collect::<String>()})); }
                         _ => { st.bump("original_not_executable_on_sqlite"); }
                     }
                 }
